@@ -204,6 +204,13 @@ def check_generic(pane, res):
     S = type('Sibling', (pane.PaneBase,), {'__annotations__': {'v': int, 'w': int}, 'w': 0, '__module__': 'mc.generated'})
     Sub = type('Sub', (G[int],), {'__annotations__': {}, '__module__': 'mc.generated'})
     forms = {'G': G, 'G[int]': G[int], 'G[Any]': G[t.Any], 'G[float]': G[float], 'Sibling': S, 'Sub(G[int])': Sub}
+    # two parameters, bound in one step and in two (the partially bound class is subscripted again)
+    U_ = t.TypeVar('U_')
+    H = new_class('GenEq2', (pane.PaneBase, t.Generic[T_, U_]),
+                  {'__annotations__': {'v': T_, 'u': t.Optional[U_], 'w': int}, 'u': None, 'w': 0, '__module__': 'mc.generated'})
+    forms.update({'H': H, 'H[int,str]': H[int, str], 'H[int,U][str]': H[int, U_][str], 'H[T,str][int]': H[T_, str][int],
+                  'H[Any,Any]': H[t.Any, t.Any]})
+    fam = lambda n: n.split('[')[0] if n[0] in 'GH' else None  # noqa: E731
     for (na, A), (nb, B) in itertools.product(forms.items(), repeat=2):
         for va, vb in itertools.product((5, 6), repeat=2):
             try:
@@ -211,7 +218,7 @@ def check_generic(pane, res):
                 got = a == b
             except Exception as e:  # noqa
                 got = type(e).__name__
-            same_family = na.startswith('G') and nb.startswith('G')
+            same_family = fam(na) is not None and fam(na) == fam(nb)
             # (a real subclass of a subscripted generic is a class of its own: equal to itself only)
             want = (va == vb) if (same_family or na == nb) else False
             res['evals'] += 1
